@@ -2,6 +2,7 @@
   Totality of the scalar model (area `scalars`): helper lemmas for Props/C10/Scalars.lean.
 -/
 import PgVerif.Model.Scalars
+import PgVerif.Proofs.InlineComp
 namespace PgVerif.Proofs.Scalars
 open PgVerif PgVerif.Model.Scalars PgVerif.Txt
 
@@ -430,7 +431,9 @@ theorem readVarlena_total (data : Bytes) : Total (Model.readVarlena data) := by
       · refine total_ite (fun _ => total_pure _) (fun h4 => ?_)
         refine total_bind (uN_total _ _ _ (by omega)) fun header => ?_
         refine total_ite (fun _ => total_pure _) (fun hc => ?_)
-        exact total_bind (slice_total _ _ _ (by omega) (by omega)) fun _ => total_pure _
+        refine total_ite (fun hz => ?_) (fun _ => ?_)
+        · exact total_bind (Proofs.InlineComp.inlineDecompress_total _ _ (by omega) (by omega)) fun _ => total_pure _
+        · exact total_bind (slice_total _ _ _ (by omega) (by omega)) fun _ => total_pure _
 
 theorem numBound_total (ext : Ext) (hext : ExtTotal ext) (data : Bytes) (offset : Nat) :
     Total (numBound ext data offset) := by
